@@ -28,6 +28,7 @@ type History struct {
 	// four-validator mode: the node is validator 0 of 4, the others are played by the harness
 	// at the first restart the application reports an older committed height (restored from its own older state)
 	AppRollback int64
+	Initial     int64 // genesis initial height (0/1 = 1)
 	Four        bool
 	Scripts     []RoundScript // rounds played before (and up to) the crash
 	Scripts2    []RoundScript // rounds played after the recovery (same height/round as where the node comes back)
@@ -50,6 +51,9 @@ func GenHistory(t *rapid.T) History {
 	h.ParamAt = int64(rapid.IntRange(0, int(h.Heights)).Draw(t, "paramAt"))
 	h.RetainAt = int64(rapid.IntRange(0, int(h.Heights)+1).Draw(t, "retainAt"))
 	h.GenTime = time.Now().Add(-time.Hour).UTC()
+	if rapid.IntRange(0, 3).Draw(t, "initialHeight") == 0 {
+		h.Initial = int64(rapid.IntRange(2, 50).Draw(t, "initial"))
+	}
 	if h.RetainAt <= 1 && rapid.IntRange(0, 3).Draw(t, "rollback") == 0 {
 		h.AppRollback = int64(rapid.IntRange(1, 4).Draw(t, "rollbackBy"))
 	}
@@ -58,7 +62,7 @@ func GenHistory(t *rapid.T) History {
 
 func (h History) genDoc() *types.GenesisDoc {
 	pk := lib.Key(0).PubKey()
-	g := &types.GenesisDoc{GenesisTime: h.GenTime, ChainID: "pnode-chain", InitialHeight: 1,
+	g := &types.GenesisDoc{GenesisTime: h.GenTime, ChainID: "pnode-chain", InitialHeight: h.initial(),
 		ConsensusParams: types.DefaultConsensusParams(),
 		Validators:      []types.GenesisValidator{{Address: pk.Address(), PubKey: pk, Power: h.PowerSelf, Name: "v0"}}}
 	if err := g.ValidateAndComplete(); err != nil {
@@ -67,6 +71,16 @@ func (h History) genDoc() *types.GenesisDoc {
 	return g
 }
 
+func (h History) initial() int64 {
+	if h.Initial > 1 {
+		return h.Initial
+	}
+	return 1
+}
+
+// off translates the history's relative heights (1 = first block) to chain heights.
+func (h History) off(rel int64) int64 { return rel + h.initial() - 1 }
+
 // NewNodeHome creates the persistent state for one run of history h.
 func (h History) NewNodeHome() (*Persist, error) {
 	p, err := NewPersist(h.genDoc(), 0)
@@ -74,30 +88,30 @@ func (h History) NewNodeHome() (*Persist, error) {
 		return nil, err
 	}
 	p.TxPlan = func(inc int, height int64) []types.Tx {
-		txs := append([]types.Tx(nil), h.Txs[height]...)
+		txs := append([]types.Tx(nil), h.Txs[height-h.initial()+1]...)
 		if h.Salted && inc > 0 {
 			txs = append(txs, types.Tx(fmt.Sprintf("late-%d-%d", inc, height)))
 		}
 		return txs
 	}
 	if h.AddValAt > 0 {
-		p.App.Plans[h.AddValAt] = &lib.HeightPlan{ValUpdates: []lib.ValUpdate{{Key: 1, Power: 1}}}
+		p.App.Plans[h.off(h.AddValAt)] = &lib.HeightPlan{ValUpdates: []lib.ValUpdate{{Key: 1, Power: 1}}}
 	}
 	if h.ParamAt > 0 {
-		pl := p.App.Plans[h.ParamAt]
+		pl := p.App.Plans[h.off(h.ParamAt)]
 		if pl == nil {
 			pl = &lib.HeightPlan{}
-			p.App.Plans[h.ParamAt] = pl
+			p.App.Plans[h.off(h.ParamAt)] = pl
 		}
 		pl.Params = &abci.ConsensusParams{Block: &abci.BlockParams{MaxBytes: 1 << 20, MaxGas: 1000 + h.ParamAt}}
 	}
 	if h.RetainAt > 1 {
-		pl := p.App.Plans[h.RetainAt]
+		pl := p.App.Plans[h.off(h.RetainAt)]
 		if pl == nil {
 			pl = &lib.HeightPlan{}
-			p.App.Plans[h.RetainAt] = pl
+			p.App.Plans[h.off(h.RetainAt)] = pl
 		}
-		pl.RetainHeight = h.RetainAt - 1
+		pl.RetainHeight = h.off(h.RetainAt) - 1
 	}
 	return p, nil
 }
@@ -255,9 +269,9 @@ func OpLabels(h History) ([]string, error) {
 		return nil, fmt.Errorf("dry run boot: %v %v", err, crashed)
 	}
 	defer n.Stop()
-	alive, reached := h.drive(n, h.Scripts, h.Heights, nil, nil)
+	alive, reached := h.drive(n, h.Scripts, h.off(h.Heights), nil, nil)
 	if !alive || !reached {
-		return nil, fmt.Errorf("dry run did not reach height %d (alive=%v, at %d)", h.Heights, alive, n.BlockStore.Height())
+		return nil, fmt.Errorf("dry run did not reach height %d (alive=%v, at %d)", h.off(h.Heights), alive, n.BlockStore.Height())
 	}
 	return append([]string(nil), n.C.Labels...), nil
 }
@@ -294,7 +308,7 @@ func RunCrash(h History, k int, cutFrac float64, recoveryCrashes []int) (*Result
 			return res, nil
 		}
 		if crashed == nil {
-			target := h.Heights
+			target := h.off(h.Heights)
 			if inc > 0 {
 				// ---- recovered: evaluate
 				if v := CheckCursors(n); v != "" {
@@ -305,7 +319,7 @@ func RunCrash(h History, k int, cutFrac float64, recoveryCrashes []int) (*Result
 					res.compareReplay(marks, walRecs, walEnd, n)
 				}
 				// ---- the node goes on committing
-				target = h.Heights + 2
+				target = h.off(h.Heights) + 2
 				if n.BlockStore.Height()+2 > target {
 					target = n.BlockStore.Height() + 2
 				}
@@ -361,8 +375,8 @@ func RunCrash(h History, k int, cutFrac float64, recoveryCrashes []int) (*Result
 			walRecs, walEnd, _ = countWALAfterLastEndHeight(p.walFile())
 			if h.AppRollback > 0 {
 				to := p.App.Height - h.AppRollback
-				if to < 0 {
-					to = 0
+				if to < h.initial() {
+					to = 0 // an application below the first block has committed nothing
 				}
 				p.App.Rollback(to)
 			}
@@ -475,6 +489,7 @@ func CheckAppJournal(app *lib.ScriptApp, bs BlockLoader) string {
 	stage := ""           // "", "begin", "end"
 	var txs []string
 	done := map[int64][]string{}
+	initial := int64(1)
 	for _, c := range app.Journal {
 		switch c.Method {
 		case "Info":
@@ -489,8 +504,13 @@ func CheckAppJournal(app *lib.ScriptApp, bs BlockLoader) string {
 			// an interrupted group before InitChain is impossible; a repeated InitChain at height 0 is allowed
 			// (crash between InitChain and the first commit)
 			cur, stage = 0, ""
+			fmt.Sscanf(c.Extra, "initial=%d", &initial) //nolint
 		case "BeginBlock":
-			if c.Height != committed+1 {
+			want := committed + 1
+			if committed == 0 {
+				want = initial
+			}
+			if c.Height != want {
 				return fmt.Sprintf("BeginBlock(%d) (journal #%d) but the application has committed %d: a height was skipped or a committed block is executed again", c.Height, c.Seq, committed)
 			}
 			// a previous group may have been cut by a crash: it restarts from BeginBlock of the same height
